@@ -81,6 +81,20 @@ func (c *Ctx) srcKey(info *types.Info, fd *ast.FuncDecl, e ast.Expr) string {
 		if key != "" {
 			return key
 		}
+		// a local copy of the first element: `x := F[0]` (its address may be taken afterwards)
+		ast.Inspect(fd.Body, func(n ast.Node) bool {
+			if as, ok := n.(*ast.AssignStmt); ok && as.Tok == token.DEFINE && len(as.Lhs) == 1 && len(as.Rhs) == 1 && identObj(info, as.Lhs[0]) == ro {
+				if ix, ok := unparen(as.Rhs[0]).(*ast.IndexExpr); ok {
+					if v, ok := intConstOf(info, ix.Index); ok && v == 0 {
+						key = "range(" + c.canon(info, ix.X, o) + ")"
+					}
+				}
+			}
+			return true
+		})
+		if key != "" {
+			return key
+		}
 	}
 	return c.canon(info, e, o)
 }
@@ -179,10 +193,26 @@ func (c *Ctx) firstTreeConv(pkgRel, recv string) {
 	}
 	// same source element
 	ik, fk := c.srcKey(info, it.Decl, isrc), c.srcKey(info, ft.Decl, fsrc)
-	c.Check(ik == fk, "FIRST", name+"/same-source", fcall.Pos(), "both convert "+ik, "FirstTree converts "+fk+" while the iterator converts "+ik).Clause = clause
+	// `X[0]` (taken directly) is the first element of `range X`
+	firstOf := func(k string) string {
+		k = strings.TrimPrefix(k, "&")
+		if strings.HasSuffix(k, "[0]") {
+			return "range(" + strings.TrimSuffix(k, "[0]") + ")"
+		}
+		return ""
+	}
+	sameSrc := ik == fk || (firstOf(fk) != "" && firstOf(fk) == ik)
+	c.Check(sameSrc, "FIRST", name+"/same-source", fcall.Pos(), "both convert "+ik, "FirstTree converts "+fk+" while the iterator converts "+ik).Clause = clause
 	// when the source is a range value, FirstTree must take the first element: the converter call is
 	// unguarded inside the loop and the loop body leaves after it
-	if strings.HasPrefix(fk, "range(") {
+	if strings.HasPrefix(fk, "range(") && func() bool {
+		for _, s := range stackTo(ft.Decl.Body, fcall) {
+			if _, ok := s.(*ast.RangeStmt); ok {
+				return true
+			}
+		}
+		return false
+	}() {
 		st := stackTo(ft.Decl.Body, fcall)
 		var rs *ast.RangeStmt
 		for _, s := range st {
